@@ -187,9 +187,12 @@ func solveOne(c *Ctx, o *Obligation, dir string, timeoutMs int, seed int) *Verdi
 		}
 	}
 	if instSat >= 2 {
-		rounds = 1
-		if timeoutMs > 8000 {
-			timeoutMs = 8000
+		short := timeoutMs / 3
+		if short < 8000 {
+			short = 8000
+		}
+		if timeoutMs > short {
+			timeoutMs = short
 		}
 	}
 	first := timeoutMs / 4
